@@ -1,7 +1,7 @@
 (* Reads on arbitrary graphs (cyclic, broken, forked chains): Graph.items
-   always terminates thanks to its [chain] set, raises on a cyclic chain, and
-   index() terminates whenever the rest links do not loop. *)
-From RV Require Import Collection.Model.
+   always terminates thanks to its [chain] set and raises on a cyclic chain;
+   index() always terminates thanks to its [seen] set (repair 6f3b46c5). *)
+From RV Require Import Collection.Model Collection.Proofs.
 From Coq Require Import Lia.
 
 Lemma value_in g s p r : g_value g s p = Some r -> exists t, In t g /\ obj t = r.
@@ -70,10 +70,20 @@ Proof.
   unfold c_contains. pose proof (c_items_total g head) as H. destruct (c_items g head) as [ys e].
   destruct (memb N.eqb v ys); [discriminate|]. apply stop_res_hang; [exact H|discriminate].
 Qed.
+Lemma norm_total g head i r : c_norm g head i = inr r -> r <> RHang.
+Proof.
+  unfold c_norm. destruct (i <? 0)%Z; [|discriminate].
+  pose proof (len_total g head) as Ht.
+  destruct (c_len g head) as [| | n | | | |] eqn:E; intros H; inversion H; subst; try discriminate; auto.
+  destruct (i + Z.of_N n <? 0)%Z; inversion H1. discriminate.
+Qed.
+
 Lemma getitem_total g head i : c_getitem g head i <> RHang.
 Proof.
-  unfold c_getitem. destruct (get_container g head i) as [c|]; [|discriminate].
-  destruct (truthy c); [|discriminate]. destruct (g_value g c FIRST); discriminate.
+  unfold c_getitem. destruct (c_norm g head i) as [key|r] eqn:En; [|now apply (norm_total g head i)].
+  destruct (get_container g head key) as [c|]; [|discriminate].
+  destruct (negb (N.eqb c NIL) && g_has (Some c, Some FIRST, None) g); [|discriminate].
+  destruct (g_value g c FIRST); discriminate.
 Qed.
 
 (* a cyclic chain makes the generator raise *)
@@ -94,26 +104,70 @@ Proof.
     destruct (g_value g c FIRST); simpl in *; auto.
 Qed.
 
-(* index() terminates when the rest links do not loop *)
-Lemma acyclic_index g v : forall fuel c seen idx,
-  cyclic_f false fuel g c seen = Some false -> index_f fuel g c v idx <> RHang.
+(* index() terminates on every graph: pigeonhole on its [seen] set *)
+Lemma objects_in g s p x : In x (g_objects g s p) -> In x (map obj g).
 Proof.
-  induction fuel as [|f IH]; intros c seen idx; [discriminate|].
-  cbn [cyclic_f index_f andb]. destruct (g_has (Some c, Some FIRST, Some v) g); [discriminate|].
-  unfold g_value. destruct (g_objects g c REST) as [|x [|y r]]; simpl; try discriminate.
-  destruct (memb N.eqb x seen); [discriminate|].
-  intros H. destruct (N.eqb x NIL); [discriminate|]. now apply (IH _ _ (N.succ idx)) in H.
+  unfold g_objects. intros H. apply in_map_iff in H. destruct H as [t [<- Ht]].
+  apply filter_In in Ht. apply in_map. tauto.
+Qed.
+
+Lemma index_no_hang g head v : forall fuel c idx seen,
+  NoDup seen -> incl seen (head :: map obj g) ->
+  (length (head :: map obj g) < fuel + length seen)%nat ->
+  index_f fuel g c v idx seen <> RHang.
+Proof.
+  induction fuel as [|f IH]; intros c idx seen Hn Hi Hl.
+  - exfalso. apply NoDup_incl_length in Hi; auto. lia.
+  - cbn [index_f]. destruct (g_has (Some c, Some FIRST, Some v) g); [discriminate|].
+    destruct (g_objects g c REST) as [|x [|y r]] eqn:E; try discriminate.
+    destruct (N.eqb x NIL); [discriminate|].
+    destruct (memb N.eqb x seen) eqn:Em; [discriminate|].
+    apply IH.
+    + constructor; auto. now apply (memb_false _ N.eqb_spec).
+    + intros y [<-|Hy]; [|auto]. right. apply (objects_in g c REST). rewrite E. now left.
+    + cbn [length] in *. lia.
+Qed.
+
+Lemma index_total g head v : c_index g head v <> RHang.
+Proof.
+  unfold c_index. apply (index_no_hang g head).
+  - constructor; [simpl; tauto|constructor].
+  - intros y [<-|[]]. now left.
+  - unfold fuel_of. cbn [length]. rewrite map_length. lia.
+Qed.
+
+(* index() answers a position only if it saw the item: an item that is no
+   rdf:first object anywhere makes it raise - in particular on looping chains *)
+Lemma index_absent g v : g_has (None, Some FIRST, Some v) g = false ->
+  forall fuel c idx seen, index_f fuel g c v idx seen = RHang \/ is_exc (index_f fuel g c v idx seen) = true.
+Proof.
+  intros Habs. induction fuel as [|f IH]; intros c idx seen; [now left|].
+  cbn [index_f].
+  assert (Hc : g_has (Some c, Some FIRST, Some v) g = false).
+  { apply not_true_false. intros H. apply g_has_spo in H.
+    assert (Hx : g_has (None, Some FIRST, Some v) g = true).
+    { unfold g_has. apply existsb_exists. exists (c, FIRST, v). split; auto.
+      simpl. now rewrite !N.eqb_refl. }
+    congruence. }
+  rewrite Hc. destruct (g_objects g c REST) as [|x [|y r]]; try (right; reflexivity).
+  destruct (N.eqb x NIL); [right; reflexivity|].
+  destruct (memb N.eqb x seen); [right; reflexivity|]. apply IH.
+Qed.
+
+Lemma index_absent_raises g head v : g_has (None, Some FIRST, Some v) g = false ->
+  is_exc (c_index g head v) = true.
+Proof.
+  intros H. destruct (index_absent g v H (fuel_of g) head 0%N [head]) as [E|E]; [|exact E].
+  exfalso. exact (index_total g head v E).
 Qed.
 
 (* ------------------------------------------------------------------ *)
 (* the reads suite: what the conformance check evaluates               *)
 
-Lemma r_ok_model g ops o :
-  In o ops -> is_read o = true ->
-  (cyclic_rest g HEAD = false \/ existsb (fun o => match o with OIndex _ => true | _ => false end) ops = false) ->
+Lemma r_ok_model g o : is_read o = true ->
   r_ok g o (snd (c_step HEAD {| gr := g; fresh := 1000%N |} o)) = true.
 Proof.
-  intros Hin Hr Hk. unfold r_ok.
+  intros Hr. unfold r_ok.
   assert (Hc : cyclic_iter g HEAD = true -> snd (c_items g HEAD) = ICycle).
   { unfold cyclic_iter, c_items. intros H.
     destruct (cyclic_f true (fuel_of g) g HEAD [HEAD]) as [[|]|] eqn:E; try discriminate.
@@ -132,36 +186,21 @@ Proof.
     + rewrite andb_true_r. apply negb_true_iff.
       destruct (c_items g HEAD) as [ys e]. destruct e; simpl in *; congruence.
   - (* index *) rewrite andb_true_r. apply negb_true_iff.
-    destruct Hk as [Hk|Hk].
-    + unfold cyclic_rest in Hk.
-      destruct (cyclic_f false (fuel_of g) g HEAD [HEAD]) as [[|]|] eqn:E; try discriminate.
-      pose proof (acyclic_index g v _ _ _ 0%N E) as Hi. unfold c_index.
-      destruct (index_f (fuel_of g) g HEAD v 0); auto; congruence.
-    + exfalso. assert (Hx : existsb (fun o => match o with OIndex _ => true | _ => false end) ops = true).
-      { apply existsb_exists. exists (OIndex v). auto. }
-      congruence.
+    pose proof (index_total g HEAD v). destruct (c_index g HEAD v); auto; congruence.
   - (* x in c *) rewrite andb_true_r. apply negb_true_iff.
     pose proof (contains_total g HEAD v). destruct (c_contains g HEAD v); auto; congruence.
 Qed.
 
-Lemma r_run_model g ops0 : forall ops, incl ops ops0 -> forallb is_read ops = true ->
-  (cyclic_rest g HEAD = false \/ existsb (fun o => match o with OIndex _ => true | _ => false end) ops0 = false) ->
+Lemma r_run_model g : forall ops, forallb is_read ops = true ->
   r_run g ops (map (fun o => snd (c_step HEAD {| gr := g; fresh := 1000%N |} o)) ops) = true.
 Proof.
-  induction ops as [|o r IH]; intros Hi Hr Hk; [reflexivity|].
+  induction ops as [|o r IH]; intros Hr; [reflexivity|].
   cbn [map r_run]. cbn [forallb] in Hr. apply andb_true_iff in Hr. destruct Hr as [R1 R2].
-  rewrite (r_ok_model g ops0 o); auto.
-  - apply IH; auto. intros x Hx. apply Hi. now right.
-  - apply Hi. now left.
+  rewrite (r_ok_model g o R1). now apply IH.
 Qed.
 
-Lemma r_spec_model c : r_wfb c = true -> r_kf c = 0%N -> r_spec c (r_model c) = true.
-Proof.
-  intros Hw Hk. unfold r_spec, r_model. apply r_run_model with (ops0 := r_ops c); auto.
-  - apply incl_refl.
-  - unfold r_kf in Hk. destruct (cyclic_rest (r_graph c) HEAD); [|now left].
-    destruct (existsb _ (r_ops c)); [discriminate|now right].
-Qed.
+Lemma r_spec_model c : r_wfb c = true -> r_spec c (r_model c) = true.
+Proof. intros Hw. unfold r_spec, r_model. now apply r_run_model. Qed.
 
 Lemma cyclic_reads_raise g head : cyclic_iter g head = true ->
   c_iter g head = RExc ValueError /\ c_len g head = RExc ValueError.
@@ -171,16 +210,3 @@ Proof.
   assert (Hc : snd (c_items g head) = ICycle) by exact (cyc_items g _ _ [head] E).
   unfold c_iter, c_len. destruct (c_items g head) as [ys e]. cbn [snd] in Hc. rewrite Hc. auto.
 Qed.
-
-Lemma index_terminates g head v : cyclic_rest g head = false -> c_index g head v <> RHang.
-Proof.
-  unfold cyclic_rest, c_index. intros H.
-  destruct (cyclic_f false (fuel_of g) g head [head]) as [[|]|] eqn:E; try discriminate.
-  apply (acyclic_index g v _ _ _ 0%N E).
-Qed.
-
-(* F3c: on the one-cell chain whose rest is the cell itself, index() of an
-   absent item exhausts every amount of fuel *)
-Definition loop_graph : graph := [(30, 21, 1); (30, 22, 30)]%N.
-Lemma index_loops : forall fuel idx, index_f fuel loop_graph HEAD 12%N idx = RHang.
-Proof. induction fuel as [|f IH]; intros idx; [reflexivity|]. cbn. apply IH. Qed.
